@@ -1,5 +1,146 @@
 package main
 
+import (
+	"fmt"
+	"go/ast"
+	"go/token"
+	"strconv"
+	"strings"
+)
+
+// constEval evaluates a constant integer expression made of literals, package-level constants of
+// the same file, conversions like uint32(x), and + - * /.
+func constEval(f *ast.File, e ast.Expr, depth int) (int64, bool) {
+	if depth > 20 || e == nil {
+		return 0, false
+	}
+	switch x := e.(type) {
+	case *ast.BasicLit:
+		if x.Kind == token.INT {
+			v, err := strconv.ParseInt(x.Value, 0, 64)
+			return v, err == nil
+		}
+	case *ast.ParenExpr:
+		return constEval(f, x.X, depth+1)
+	case *ast.Ident:
+		return constEval(f, topVarValue(f, x.Name), depth+1)
+	case *ast.CallExpr:
+		if len(x.Args) == 1 {
+			return constEval(f, x.Args[0], depth+1)
+		}
+	case *ast.BinaryExpr:
+		a, ok1 := constEval(f, x.X, depth+1)
+		b, ok2 := constEval(f, x.Y, depth+1)
+		if !ok1 || !ok2 {
+			return 0, false
+		}
+		switch x.Op {
+		case token.ADD:
+			return a + b, true
+		case token.SUB:
+			return a - b, true
+		case token.MUL:
+			return a * b, true
+		case token.QUO:
+			if b != 0 {
+				return a / b, true
+			}
+		}
+	}
+	return 0, false
+}
+
+func natFact(name string, v int64, ok bool, where, seen string) {
+	if !ok || v < 0 {
+		// an unknown number is encoded as a value no obligation accepts
+		add(name, "Nat", "0", where+" (UNKNOWN)", seen)
+		add(name+"Known", "Bool", "false", where, seen)
+		return
+	}
+	add(name, "Nat", fmt.Sprint(v), where, seen)
+	add(name+"Known", "Bool", "true", where, seen)
+}
+
+// returnsWithStores: every `return <first>, ...` of fn whose first result is the identifier `first`
+// is preceded, in its own statement list or an enclosing one, by all the `stores` (source substrings).
+func returnsWithStores(fn *ast.FuncDecl, first string, stores []string) (all bool, n int) {
+	all = true
+	var walk func(list []ast.Stmt, inherited string)
+	walk = func(list []ast.Stmt, inherited string) {
+		before := inherited
+		for _, st := range list {
+			if rs, ok := st.(*ast.ReturnStmt); ok && len(rs.Results) > 0 {
+				if id, ok := rs.Results[0].(*ast.Ident); ok && id.Name == first {
+					n++
+					for _, s := range stores {
+						if !strings.Contains(before, s) {
+							all = false
+						}
+					}
+				}
+			}
+			// descend with the text seen so far
+			ast.Inspect(st, func(nd ast.Node) bool {
+				switch b := nd.(type) {
+				case *ast.BlockStmt:
+					if nd != st {
+						walk(b.List, before)
+						return false
+					}
+				case *ast.CaseClause:
+					walk(b.Body, before)
+					return false
+				case *ast.CommClause:
+					walk(b.Body, before)
+					return false
+				case *ast.FuncLit:
+					return false
+				}
+				return true
+			})
+			if _, isBlockLike := st.(*ast.BlockStmt); !isBlockLike {
+				// only straight-line statements of this list count as "before" for later siblings
+				switch st.(type) {
+				case *ast.ExprStmt, *ast.AssignStmt:
+					before += " " + squash(src(st))
+				}
+			}
+		}
+	}
+	if fn != nil && fn.Body != nil {
+		walk(fn.Body.List, "")
+	}
+	return all && n > 0, n
+}
+
+func walFacts() {
+	f := parse("server/wal/codec/v2.go")
+	v2 := topVarValue(f, "v2")
+	var hs ast.Expr
+	if v2 != nil {
+		if u, ok := v2.(*ast.UnaryExpr); ok {
+			if cl, ok := u.X.(*ast.CompositeLit); ok && len(cl.Elts) > 0 {
+				hs = compositeField(cl.Elts[0], "HeaderSize")
+			}
+		}
+	}
+	v, ok := constEval(f, hs, 0)
+	natFact("codecV2HeaderSize", v, ok, "server/wal/codec/v2.go: v2.Metadata.HeaderSize", src(hs))
+
+	w := parse("server/wal/wal_impl.go")
+	fn := funcDecl(w, "wal", "TruncateLog")
+	all, n := returnsWithStores(fn, "lastSafeOffset",
+		[]string{"t.lastAppendedOffset.Store(lastSafeOffset)", "t.lastSyncedOffset.Store(lastSafeOffset)"})
+	add("walTruncateUpdatesOffsetsOnAllPaths", "Bool", boolLean(all), "server/wal/wal_impl.go: (*wal).TruncateLog",
+		fmt.Sprintf("%d `return lastSafeOffset, …` statements; all dominated by stores to lastAppendedOffset and lastSyncedOffset: %v", n, all))
+
+	// LastOffset() reports the synced offset
+	lo := funcDecl(w, "wal", "LastOffset")
+	synced := lo != nil && strings.Contains(squash(src(lo.Body)), "return t.lastSyncedOffset.Load()")
+	add("walLastOffsetIsSynced", "Bool", boolLean(synced), "server/wal/wal_impl.go: (*wal).LastOffset", src(lo))
+}
+
 // moreFacts collects the facts of the other properties (added per property).
 func moreFacts() {
+	walFacts()
 }
